@@ -36,8 +36,8 @@ Definition ueqb (a b : uvec) : bool :=
 Definition ueq (a b : uvec) : Prop := forall k, (get a k == get b k)%Q.
 
 (* projections.  Generator -8 is pint's "radian = []": a base unit WITHOUT a dimension.  It takes
-   no part in convertibility or scale (radian converts to dimensionless with factor 1) but it is
-   visible in the base-unit expansion, hence to is_equivalent (see KNOWN_FINDINGS: radian). *)
+   no part in convertibility, scale or equivalence (radian converts to dimensionless with factor 1 and,
+   since the fix: commit for the radian finding, is_equivalent compares dimensionalities, not base units). *)
 Definition angle_gen : Z := -8.
 Definition is_dim (k : Z) : bool := Z.ltb k 0 && negb (Z.eqb k angle_gen).
 Definition is_scale (k : Z) : bool := Z.ltb 0 k.
@@ -56,7 +56,7 @@ Definition conv (a b : uvec) : option uvec :=
 Definition is_one (c : uvec) : bool := ueqb c uone.
 
 (* is_equivalent: same dimensions and same scale *)
-Definition equivb (a b : uvec) : bool := ueqb a b.
+Definition equivb (a b : uvec) : bool := same_dims a b && ueqb (scale a) (scale b).
 
 (* A canonical printable form for the bridge: merged exponents of the distinct keys, zero
    entries dropped, in order of first occurrence. *)
